@@ -41,6 +41,11 @@ def _spec_worker(args):
     specrun.quiet()
     if len(cfg["alpha"]) == 3:
         N = min(N, 3)
+    if "track" in (cfg.get("mode") or ""):
+        # a child that tracks a statistic its parent lacks: the library's samplers pass the child only the parent's
+        # parameters (KeyError in count_objects_of_size) - such specifications do not support sampling
+        out["status"] = "sampling-not-supported (child with an unmapped statistic)"
+        return out
     try:
         root, spec, _ = specrun.search(cfg)
     except speccheck.Timeout:
@@ -98,6 +103,8 @@ def rule_worker(args):
             con = rule.constructor
             if not isinstance(con, (DisjointUnion, CartesianProduct)) or c.is_empty():
                 continue
+            if any(set(ch.extra_parameters) - set(m.values()) for ch, m in zip(rule.children, rule.strategy.extra_parameters(c, rule.children))):
+                continue  # a child with an unmapped statistic: sampling not supported by the library
             o = {"rule": f"{c!r} via {s!r}", "problems": [], "instances": 0, "lines": [], "expect": [], "kind": type(con).__name__}
             from upword import true_terms
 
